@@ -11,14 +11,14 @@ UNITS = [
     Unit(uid="U25.2.split", prop="C25", harness=H, entry="h_split", mode="dfcc", defines=["U25_2"],
          functions=["od_ec_decode_cdf_q15", "od_ec_dec_normalize", "svt_od_ec_encode_cdf_q15", "od_ec_encode_q15",
                     "od_ec_enc_normalize"],
-         loop_contracts=1, unwind=18, min_obligations=100, cover_functions=[], timeout=1200, mem_gb=16,
+         loop_contracts=1, unwind=18, min_obligations=100, cover_functions=["od_ec_decode_cdf_q15"], timeout=1200, mem_gb=16, backend="cadical",
          slice_spec=[{"kind": "annot", "file": DECH, "func_re": r"^static int od_ec_decode_cdf_q15\(",
                       "loop": "do {", "name": "symbol_search", "text": "VERIF_LOOP_SYMBOL_SEARCH"}],
          what="for every range, window value, valid table and alphabet size: decode then encode of the decoded "
               "symbol agree on the new range and the code point lies in the encoder's sub-interval"),
     Unit(uid="U25.2.bool", prop="C25", harness=H, entry="h_bool", mode="plain", defines=["U25_2B"],
          functions=["od_ec_decode_bool_q15", "od_ec_dec_normalize", "svt_od_ec_encode_bool_q15",
-                    "od_ec_enc_normalize"], min_obligations=60, cover_functions=[], timeout=900,
+                    "od_ec_enc_normalize"], min_obligations=60, cover_functions=[], timeout=900, backend="cadical",
          what="same agreement for booleans, every probability 0<f<32768"),
     Unit(uid="U25.3.norm", prop="C25", harness=H, entry="h_norm", mode="plain", defines=["U25_3", "NORM_MAXSTORAGE=4096"],
          functions=["od_ec_enc_normalize", "svt_od_ec_enc_tell"], unwind=17, native=True, min_obligations=60, cover_functions=[],
